@@ -28,10 +28,12 @@ class SigmaValidator:
         exclusions: dict[UUID | None, set[Type[SigmaRuleValidator]]] = dict(),
         config: dict[str, dict[str, str | int | float | bool]] = dict(),
     ):
-        self.validators = {
+        # List in the order given (duplicates dropped): the order of the emitted issues must not
+        # depend on the hash-based iteration order of a set of validator objects.
+        self.validators = [
             validator(**config.get(validator_classname_to_identifier(validator.__name__), {}))
-            for validator in validators
-        }
+            for validator in dict.fromkeys(validators)
+        ]
         self.exclusions = defaultdict(set, exclusions)
 
     @classmethod
@@ -67,13 +69,13 @@ class SigmaValidator:
                     vs.remove(vn)
                 except KeyError:
                     raise SigmaConfigurationError(
-                        f"Attempting to remove not existing validator '{ vn }' from validator set { vs }."
+                        f"Attempting to remove not existing validator '{ vn }' from validator set { sorted(vs) }."
                     )
             else:  # handle as validator name and try to add it to set.
                 vs.add(v)
 
         try:  # convert validator names into classes
-            validator_classes = {validators[v] for v in vs}
+            validator_classes = [validators[v] for v in sorted(vs)]
         except KeyError as e:
             raise SigmaConfigurationError(f"Unknown validator '{ e.args[0] }'")
 
